@@ -569,21 +569,31 @@ def run_module(i, inputs, hooks):
 
 def cover_violation(i, args):
     vals = value_tables(i)
-    problems = []
+    events = []
+    callers = {}
 
     def on_def(act, row, name, value):
-        if problems or row["operation"] in ("parameter_decl", "method_decl", "class_decl", "forin_stmt"):
+        if row["operation"] in ("parameter_decl", "method_decl", "class_decl", "forin_stmt"):
             return
         if not isinstance(value, (int, str)) or name is None:
             return
+        if row["stmt_id"] in vals:
+            events.append((row, name, value, act.method_id))
+
+    def on_call(act, stmt_id, callee_id):
+        callers.setdefault((callee_id, stmt_id), set()).add(act.id)
+    run_module(i, args, {"on_def": on_def, "on_call": on_call})
+    # a helper entered through the same call statement from two different activations shares one 1-call-site context: the stored
+    # table keeps the last one only; definitions there are judged at the callers (where the results arrive), not inside
+    collapsed = {m for (m, st), acts in callers.items() if len(acts) > 1}
+    for row, name, value, m in events:
+        if m in collapsed:
+            continue
         sid = row["stmt_id"]
-        if sid not in vals:
-            return
         if not covers(vals[sid], value):
-            problems.append(f"`{name}` defined at statement {sid} ({row['operation']}) takes the value {value!r}, which none of lian's "
-                            f"states for that definition covers: {vals[sid]}")
-    run_module(i, args, {"on_def": on_def})
-    return problems[0] if problems else None
+            return (f"`{name}` defined at statement {sid} ({row['operation']}) takes the value {value!r}, which none of lian's "
+                    f"states for that definition covers: {vals[sid]}")
+    return None
 
 
 def check_cover(pidx: int, a: int, b: int, c: bool) -> bool:
@@ -643,9 +653,33 @@ def check_exact_paths(pidx: int, d0: bool, d1: bool, d2: bool, d3: bool, d4: boo
     return True
 
 
+def entry_statements(i):
+    """statement ids of the entry function f (definitions there are executed in exactly one calling context)"""
+    p = BATCH["programs"][i]
+    if "_entry_stmts" not in p:
+        from vlib.gir_interp import Unit
+        u = Unit(p["rows"])
+        ids = set()
+
+        def walk(block):
+            for r in u.children.get(block, []):
+                ids.add(r["stmt_id"])
+                for k in ("body", "then_body", "else_body"):
+                    if isinstance(r.get(k), int) and r["operation"] not in ("method_decl", "class_decl"):
+                        walk(r[k])
+        for r in u.top:
+            if r["operation"] == "method_decl" and r.get("name") == "f" and isinstance(r.get("body"), int):
+                walk(r["body"])
+        p["_entry_stmts"] = ids
+    return p["_entry_stmts"]
+
+
 def exactness_problems(i, observed):
-    """observed: {stmt id(str): set of values} over ALL control-flow paths.  Compare with lian's constant sets."""
+    """observed: {stmt id(str): set of values} over ALL control-flow paths.  Compare with lian's constant sets: two-sided for the
+    definitions of the entry function; for helper bodies (analysed once per 1-call-site context, tables keep the last context)
+    only 'lian holds nothing that was never written'."""
     vals = value_tables(i)
+    entry = entry_statements(i)
     out = []
     for sid, states in vals.items():
         if not states or any(st != 1 for (st, dt, v) in states):
@@ -658,6 +692,10 @@ def exactness_problems(i, observed):
         lian = sorted({str(v)[:-2] if str(v).endswith(".0") else str(v) for (st, dt, v) in states})
         real = sorted({str(int(x)) if isinstance(x, bool) and False else str(x) for x in seen})
         real_alt = sorted({str(x).lower() for x in seen})
+        if sid not in entry:
+            if not (set(lian) <= set(real) or set(x.lower() for x in lian) <= set(real_alt)):
+                out.append(f"definition at statement {sid} (helper body): lian holds {lian}, but only {real} are ever written there")
+            continue
         if lian != real and sorted(x.lower() for x in lian) != real_alt:
             out.append(f"definition at statement {sid}: lian holds exactly {lian}, the union of the last values written over all "
                        f"control-flow paths is {real}")
